@@ -79,7 +79,14 @@ Fixpoint kind_accepts (k k' : pkind) {struct k} : bool :=
   | KInt mn mx, KInt mn' mx' => lower_within mn' mn && upper_within mx' mx
   | KFloat mn mx, KFloat mn' mx' => lower_within mn' mn && upper_within mx' mx
   | KBool, KBool => true
-  | KTime p c, KTime p' c' => prec_eqb p p' && pconstr_eqb c c'
+  (* every timestamp text is read; what matters is that the library's truncation keeps the instant of
+     every text the specification's precision allows *)
+  | KTime p c, KTime p' c' =>
+    match p, c with
+    | PAny, _ | _, CMin => true
+    | PMilli, CExact => match p', c' with PMilli, CExact | PSecond, CExact => true | _, _ => false end
+    | PSecond, CExact => match p', c' with PSecond, CExact => true | _, _ => false end
+    end
   | KDict v, KDict v' => ver_eqb v v'
   | KHashes n v, KHashes n' v' => usubset n' n && ver_eqb v v'
   | KBinary, KBinary => true
